@@ -142,6 +142,7 @@ pub fn history(cfg: &Cfg, rep: &mut Report, h: u64, steps: usize, e2e: bool) {
     // which identity contract an account is registered with (edited during the history)
     // recovery links the registry storage has recorded (old account -> new account)
     let mut recovered: BTreeMap<usize, usize> = BTreeMap::new();
+    let mut shadow: BTreeSet<(usize, u32)> = BTreeSet::new();
     let mut ident_of: Vec<Option<usize>> = (0..=nid).map(|i| if i < nid { Some(i) } else { None }).collect();
     let topics_u: [u32; 4] = [1, 2, 3, 4];
     // model
@@ -257,6 +258,25 @@ pub fn history(cfg: &Cfg, rep: &mut Report, h: u64, steps: usize, e2e: bool) {
             if r.is_ok() {
                 held.insert((idi, SI, t), ClaimRec { key: 0, nonce: 0, valid_until: u64::MAX, data: data.to_vec() });
             }
+        } else if k < 40 && rng.chance(1, 6) {
+            // a "shadow" registration: the bytes of the issuer's Ed25519 key under ANOTHER scheme number. It
+            // can sign nothing, but it lives in the same lists; adding or removing it must not touch the
+            // real key (a signing key is the pair of bytes and scheme)
+            let pk = Bytes::from_slice(e, &keys[ii][0].public());
+            if shadow.contains(&(ii, t)) {
+                let r: Result<(), Fail> = invoke(e, &issuers[ii], "remove_key", args!(e, pk, cti.clone(), SECP256R1, t));
+                rep.op(format!("#{step} I{ii}.remove_key(bytes of key 0 under scheme {SECP256R1}, topic {t}) -> {}", tag(&r)));
+                if r.is_ok() {
+                    shadow.remove(&(ii, t));
+                }
+            } else {
+                let r: Result<(), Fail> = invoke(e, &issuers[ii], "allow_key", args!(e, pk, cti.clone(), SECP256R1, t));
+                rep.op(format!("#{step} I{ii}.allow_key(bytes of key 0 under scheme {SECP256R1}, topic {t}) -> {}", tag(&r)));
+                if r.is_ok() {
+                    shadow.insert((ii, t));
+                }
+            }
+            rep.count("shadow_key_edits");
         } else if k < 40 {
             // allow a key for a topic the issuer is trusted for (allow_key itself checks that)
             let ki = rng.idx(3);
@@ -374,10 +394,19 @@ pub fn history(cfg: &Cfg, rep: &mut Report, h: u64, steps: usize, e2e: bool) {
             let ki = forced_key.unwrap_or_else(|| rng.idx(3));
             let key = &keys[ii][ki];
             let cur_nonce = *nonce.get(&(ii, idi, t)).unwrap_or(&0);
-            let vu = ts + *rng.pick(&[1u64, 100, 100, 1_000_000_000]);
+            let mut vu = ts + *rng.pick(&[1u64, 100, 100, 1_000_000_000]);
             let mut data: Vec<u8> = (ts - 1).to_be_bytes().to_vec();
             data.extend_from_slice(&vu.to_be_bytes());
             data.extend_from_slice(&rng.bytes::<4>());
+            // one time in three the claim carries the SAME data as a claim this identity already holds from
+            // this issuer for another topic: revoking one of the two must not touch the other
+            if rng.chance(1, 3) {
+                if let Some((_, rec)) = held.iter().find(|((i2, s2, t2), rec)| *i2 == idi && *s2 == ii && *t2 != t && rec.valid_until > ts) {
+                    data = rec.data.clone();
+                    vu = rec.valid_until;
+                    rep.count("claims_sharing_data_across_topics");
+                }
+            }
             let defect = if rng.chance(1, 2) { 0 } else { 1 + rng.below(10) };
             let (mt, mid, mis, mn) = match defect {
                 1 => (t + 1, idi, ii, cur_nonce),
@@ -595,7 +624,7 @@ pub fn history(cfg: &Cfg, rep: &mut Report, h: u64, steps: usize, e2e: bool) {
 }
 
 pub fn run(cfg: &Cfg, rep: &mut Report) {
-    rep.rule = "Seeded histories on the real stack (claim-topics-and-issuers, identity registry storage, identity claims, identity verifier, claim issuer assembled from the library helpers): registry edits (topics with several, one and ZERO issuers; removed and re-added topics and issuers; 'currently trusted' is taken from the edit history and compared with the registry's own answer), a fourth, scripted issuer that confirms, fails or RETURNS false, allow/remove key, nonce bump, revoke/un-revoke, time advance past valid_until, add_claim with genuine or single-defect claims (wrong topic / identity / issuer / nonce in the signed message, data or signature altered, truncated, other scheme, expired, foreign key) signed with real Ed25519 / P-256 / secp256k1 keys. The account -> identity link is edited too (modify / remove / add again / recover; two accounts may share one identity). After every step verify_identity for 4 accounts and (every 3rd step) is_claim_valid for every held claim are compared with the iff-oracle. Distinct case = (registry shape, verdict class, outcome) / (scheme, defect or invalidation kind, outcome).".into();
+    rep.rule = "Seeded histories on the real stack (claim-topics-and-issuers, identity registry storage, identity claims, identity verifier, claim issuer assembled from the library helpers): registry edits (topics with several, one and ZERO issuers; removed and re-added topics and issuers; 'currently trusted' is taken from the edit history and compared with the registry's own answer), a fourth, scripted issuer that confirms, fails or RETURNS false, allow/remove key (also the bytes of a real key under another scheme number), claims of one identity sharing their data across topics, nonce bump, revoke/un-revoke, time advance past valid_until, add_claim with genuine or single-defect claims (wrong topic / identity / issuer / nonce in the signed message, data or signature altered, truncated, other scheme, expired, foreign key) signed with real Ed25519 / P-256 / secp256k1 keys. The account -> identity link is edited too (modify / remove / add again / recover; two accounts may share one identity). After every step verify_identity for 4 accounts and (every 3rd step) is_claim_valid for every held claim are compared with the iff-oracle. Distinct case = (registry shape, verdict class, outcome) / (scheme, defect or invalidation kind, outcome).".into();
     let nh = cfg.pick(16u64, 100);
     let steps = cfg.pick(120usize, 250);
     for k in 0..nh {
